@@ -184,3 +184,29 @@ Theorem parse_sound : forall strptime_o tz utc fmt input t fs,
     parse_finish tz utc (Some (trail, apply_events strptime_o evs ps0)) = OK (Some (t, fs)).
 Proof. exact ScanSound.parse_sound. Qed.
 Print Assumptions parse_sound.
+
+From CCTZ Require Import SourcePosix SourceFmtParse SourceParseLoop SourceParseLoopProofs SourceParseLoopIntProofs.
+(* THE SPECIFIER LOOP OF parse() AS CLANG READS IT NOW (SourceParseLoop.v, regenerated every run: the function up to and
+   including the `while (data != nullptr && *fmt != 0)` loop - white space, literal text, the switch with the ParseInt /
+   ParseOffset / ParseSubSeconds calls of SourceFmtParse.v, ParseZone, the %E look-aheads, the %e blank branch, strptime
+   (ParseTM) as an oracle whose result is CHECKED to be a suffix of the data).  Loop-invariant simulation: whenever the
+   hand-written scan_loop returns, the source-derived loop returns the same state (every C++ local = the pstate field) and
+   the same remaining input, every read in bounds - for every format of the sub-language int_fmt (all conversions except
+   %p, %E#S/%E#f, %E<x>/%O<x> other than the library's own, %: not followed by z, which are covered by the 585-pair
+   computational agreement parse_loop_agrees_on_pairs only). *)
+Theorem src_parse_loop_tie : forall o fmt input fuel r,
+  oracle_suffix o ->
+  int_fmt (c_str fmt) = true -> bytes_in fmt -> bytes_in input ->
+  (2 * length fmt + 2 * length input + 8 <= fuel)%nat ->
+  scan_loop o (S (length (c_str fmt))) (c_str fmt) (skip_space (c_str input)) ps0 = OK r ->
+  exists st, sp_parse_loop o fuel fmt input = OK st /\
+    match r with
+    | None => data_of24 st = -1
+    | Some (rest, s) => exists zone dp, st = FINAL s zone dp /\ valid input dp /\ rest = suffix input dp
+    end.
+Proof. exact sp_parse_loop_tie_int. Qed.
+Print Assumptions src_parse_loop_tie.
+Theorem src_parse_loop_agrees_on_pairs :
+  forallb (fun p => agree toy_strptime (fst p) (snd p)) pairs = true.
+Proof. exact parse_loop_agrees_on_pairs. Qed.
+Print Assumptions src_parse_loop_agrees_on_pairs.
